@@ -227,6 +227,15 @@ func cmdIP(args []string) {
 			fc := cnT.fc.Clone()
 			if forge.SetAttr(fc.Subject(), "2.5.4.3", 0x0c, []byte(ip.String())) {
 				lintOn(cnT, fc, ev.M{"what": "addr", "g": g, "util": util.IsIANAReserved(ip)})
+				// the same address as the LAST of two common names (the one the parsed certificate reports), after a host name
+				if i%4 == 0 {
+					fc2 := cnT.fc.Clone()
+					forge.SetAttr(fc2.Subject(), "2.5.4.3", 0x0c, []byte("host.example.com"))
+					forge.AddAttr(fc2.Subject(), forge.OID(2, 5, 4, 3), 0x0c, []byte(ip.String()))
+					if cert, ok, _ := corpus.ParseCert(fc2.Bytes()); ok && cert.Subject.CommonName == ip.String() {
+						lintOn(cnT, fc2, ev.M{"what": "addr", "g": g, "util": util.IsIANAReserved(ip)})
+					}
+				}
 			}
 		}
 		if ncT != nil {
